@@ -39,8 +39,9 @@ SRegister ==
        THEN hs' = [hs EXCEPT ![pend] = "running"] /\ runs' = [runs EXCEPT ![pend] = @ + 1]
        ELSE hs' = [hs EXCEPT ![pend] = "dropped"] /\ UNCHANGED runs
   /\ UNCHANGED <<sstate, maxSeen, phase, finalId, atLock, hwire, maxSent, sentAtFinal>>
-\* GracefulStop -> Drain: GOAWAY(2^31-1) + PING
-SDrain == /\ phase = 0 /\ sstate = "reachable" /\ phase' = 1
+\* GracefulStop -> Drain: GOAWAY(2^31-1) + PING.  outgoingGoAwayHandler takes maxStreamMu for the heads-up
+\* GOAWAY as well, so it too waits while a HEADERS frame is between SRecord and SRegister.
+SDrain == /\ phase = 0 /\ sstate = "reachable" /\ (pend = 0 \/ Mutant = 5) /\ phase' = 1
           /\ UNCHANGED <<sstate, maxSeen, finalId, hs, runs, pend, atLock, hwire, maxSent, sentAtFinal>>
 \* the PING ack arrives, or the 5 s timer fires: the final goAway item is queued
 SPingAckOrTimer == /\ phase = 1 /\ phase' = 2
